@@ -335,3 +335,29 @@ func handleFields(c *core.Ctx) tFields {
 	}
 	return f
 }
+
+// sameHandle: the two values resolve to the same value, or to loads of the same field of the same base.
+func sameHandle(a, b an.FV) bool {
+	a, b = a.Resolve(nil), b.Resolve(nil)
+	if a.V == b.V {
+		return true
+	}
+	fa, ok1 := a.V.(*ssa.FieldAddr)
+	fb, ok2 := b.V.(*ssa.FieldAddr)
+	if !ok1 || !ok2 || !an.SameField(an.FieldOfAddr(fa), an.FieldOfAddr(fb)) {
+		return false
+	}
+	if (an.FV{V: fa.X, F: a.F}).Resolve(nil).V == (an.FV{V: fb.X, F: b.F}).Resolve(nil).V {
+		return true
+	}
+	// the bases as addresses: a captured variable is the cell it was bound to
+	addr := func(v ssa.Value) ssa.Value {
+		if fv, ok := v.(*ssa.FreeVar); ok {
+			if b := an.FreeVarBinding(fv); b != nil {
+				return b
+			}
+		}
+		return v
+	}
+	return addr(fa.X) == addr(fb.X)
+}
